@@ -271,19 +271,23 @@ Definition mux_insert (es : list enum_def) (mx : signal) (kids : list signal) (c
         Ok (place c rel (Some (s_id mx)) (sort_by Z.ltb gids))
     end.
 
-(* the range loop of importMuxSignal: ids from..to, refused at the first id >= groupCount *)
+(* the range loop of importMuxSignal: ids from..to; an inverted range and an id >= groupCount are refused *)
 Fixpoint expand_ranges (gcount : Z) (rs : list (Z * Z)) : result (list Z) :=
   match rs with
   | [] => Ok []
   | (from, to) :: r =>
-      if (from <=? to) && (to >=? gcount) then Err "group id out of bounds"
+      if from >? to then Err "inverted range"
+      else if to >=? gcount then Err "group id out of bounds"
       else do rest <- expand_ranges gcount r; Ok (zrange from (Z.to_nat (to - from + 1)) ++ rest)
   end.
 
 (* importMuxSignal *)
-Definition import_mux_signal (env : ienv) (st : istate) (mpos : nat) (msgid : Z) (id : Z) (dm : dsignal)
+Definition import_mux_signal (env : ienv) (st : istate) (mpos : nat) (msgid : Z) (msize : Z) (id : Z) (dm : dsignal)
            (muxed : list (subtree * dsignal)) : result (subtree * istate) :=
   let es := is_enums st in
+  (* a multiplexed signal that ends beyond the message is refused before the groups are sized *)
+  if existsb (fun '((s, _), ds) => sig_size es s + get_start_bit ds >? msize * 8) muxed
+  then Err "multiplexed signal ends beyond the message" else
   let end_bit := fold_left (fun acc '((s, _), ds) =>
                    let e := sig_size es s + get_start_bit ds in if e >? acc then e else acc) muxed 0 in
   let mstart := get_start_bit dm in
@@ -302,7 +306,8 @@ Definition import_mux_signal (env : ienv) (st : istate) (mpos : nat) (msgid : Z)
                do gids <-
                  match lookup key_eqb (msgid, s_name s) (ie_ext_muxes env) with
                  | Some em =>
-                     do g <- expand_ranges gcount (em_ranges em);
+                     do g0 <- expand_ranges gcount (em_ranges em);
+                     let g := dedup_z [] g0 in      (* overlapping ranges name a group once *)
                      Ok (if Z.of_nat (length g) =? gcount then [] else g)
                  | None => Ok (if ds_muxed ds then [ds_switch ds] else [])
                  end;
@@ -359,7 +364,7 @@ Definition import_message_signals (env : ienv) (st : istate) (mpos : nat) (dm : 
                  else do ms' <- top_insert ms t sp; Ok (ms', muxed2))
                stds (Ok ((st1, []), muxed));
       let '((st2, sigs), muxed2) := r2 in
-      do (mt, st3) <- import_mux_signal env st2 mpos msgid mid dmx muxed2;
+      do (mt, st3) <- import_mux_signal env st2 mpos msgid (dm_size dm) mid dmx muxed2;
       top_insert (st3, sigs) mt mstart
   | _ =>
       let nmux := length muxes in
@@ -387,7 +392,7 @@ Definition import_message_signals (env : ienv) (st : istate) (mpos : nat) (dm : 
                  do (ms, groups) <- acc;
                  let '(mid, dmx) := nth j muxes (0, mkdsignal EmptyString false false 0 0 0 LittleEndian false
                                                           fl_one fl_zero fl_zero fl_zero EmptyString []) in
-                 do (mt, st1) <- import_mux_signal env (fst ms) mpos msgid mid dmx (nth j groups []);
+                 do (mt, st1) <- import_mux_signal env (fst ms) mpos msgid (dm_size dm) mid dmx (nth j groups []);
                  match lookup key_eqb (msgid, ds_name dmx) (ie_ext_muxes env) with
                  | None => do ms' <- top_insert (st1, snd ms) mt (get_start_bit dmx); Ok (ms', groups)
                  | Some em =>
